@@ -121,6 +121,10 @@ class PoolWorld(object):
         self.amod = amod
         self.n, self.fail, self.raise_mode, self.size, self.entry = n, frozenset(fail), bool(raise_mode), size, entry
         self.api = api or APIS[entry][0]
+        # items whose REGULAR result is None (a blank tile in TileCreator._create_bulk_meta_tile is such a result):
+        # every second world has some, so that "no result buffered" and "the buffered result is None" stay apart
+        self.none = frozenset(i for i in range(n) if i % 3 == 1 and i not in self.fail) if (n + size + len(self.fail)) % 2 == 0 \
+            else frozenset()
         self.sched = Baton(step_timeout=15.0)
         self.queues = []
         self.workers = []
@@ -211,6 +215,8 @@ class PoolWorld(object):
             serial = self.serial
         if a.i in self.fail:
             raise ItemError(a.i)
+        if a.i in self.none:
+            return None
         return Val(a.i, serial)
 
     def _consumer(self):
@@ -242,11 +248,15 @@ class PoolWorld(object):
         return 'done'
 
     def project(self, v):
-        """what the caller received -> [kind, item]"""
+        """what the caller received -> [kind, item]; a None result is attributed to the position it arrives at
+        (legitimate only if that item returns None)"""
+        pos = len(self.out)
         if not self.raise_mode:
             if not isinstance(v, self.amod.AsyncResult):
                 return ['bad', -1]
             if v.exception is None:
+                if v.result is None:
+                    return ['val', pos] if pos in self.none else ['bad', -1]
                 return ['val', v.result.i] if isinstance(v.result, Val) else ['bad', -1]
             ex = v.exception
             if v.result is None and isinstance(ex, tuple) and len(ex) == 3 and isinstance(ex[1], ItemError) \
@@ -255,6 +265,8 @@ class PoolWorld(object):
             return ['bad', -1]
         if isinstance(v, Val):
             return ['val', v.i]
+        if v is None:
+            return ['val', pos] if pos in self.none else ['bad', -1]
         if isinstance(v, tuple) and len(v) == 3 and isinstance(v[1], ItemError):
             return ['exc', v[1].i]
         return ['bad', -1]
@@ -278,6 +290,8 @@ class PoolWorld(object):
             i, res = r
             if isinstance(res, Val):
                 return i if (res.i == i and i not in self.fail) else -2
+            if res is None:
+                return i if i in self.none else -2
             if isinstance(res, tuple) and len(res) == 3 and isinstance(res[1], ItemError):
                 return i if (res[1].i == i and i in self.fail) else -2
             return -2
